@@ -1,4 +1,5 @@
 import Gittuf.Props.C08
+import Gittuf.Proofs.CacheRefine
 #print axioms Gittuf.Cache.C08_insert_mem
 #print axioms Gittuf.Cache.C08_insert_sorted
 #print axioms Gittuf.Cache.C08_findFor_greatest
@@ -6,3 +7,4 @@ import Gittuf.Props.C08
 #print axioms Gittuf.World.C08_populate_sorted
 #print axioms Gittuf.World.C08_F6_witness
 #print axioms Gittuf.World.C08_F29_witness
+#print axioms Gittuf.World.C08_lookup_refines
